@@ -203,7 +203,7 @@ class IrregularlyBin(Factory, Container):
                 raise RuntimeError(f"low {low} greater than high {high}")
         # entries at request list of x-values
         elif len(xvalues) > 0:
-            return np.array([(self.bins[self.index(x)])[1].entries for x in xvalues])
+            return np.array([(self.bins[self._lower_index(x)])[1].entries for x in xvalues])
         # lowest, highest edge reset
         if low is None:
             low = -np.inf
